@@ -1,8 +1,975 @@
-//! C12 — see /verif/DESIGN.md §3.
-use vf_core::{Args, Ctx};
+//! C12 — drawing is well-formed and independent of buffers, history and
+//! threads. See /verif/DESIGN.md §3 "C12".
+//!
+//! For every (font, configuration) work item a baseline observation is taken
+//! per glyph: "fresh hinting instance, serial, library-allocated memory" —
+//! the exact f32 bit patterns of every pen command plus the returned
+//! `AdjustedMetrics` (or the error). Every variation must reproduce it:
+//!   a  repeat (same instance, and a second fresh instance)
+//!   b  caller memory of the advertised size (+0..64), 8 start alignments,
+//!      pre-filled 0x00 / 0xAA / random / left dirty from the previous glyph
+//!   c  `LocationRef::default()` vs an explicit all-zero coordinate slice
+//!   d  a hinting instance reused through `reconfigure` after a history of
+//!      1..=6 other configurations (other fonts, formats, engines, targets,
+//!      sizes, locations), incl. the hook comparison of the logical state
+//!   e  different preceding draws (ascending / shuffled / none)
+//!   f  16 threads drawing concurrently through one shared instance
+//! and the stream grammar (TrueType outlines: `(M seg* Z)*`; all coordinates
+//! finite) is checked on every successful baseline.
+mod synth;
 
-pub const REPLAY: Option<fn(&mut Ctx, &Args, &serde_json::Value, Option<&[u8]>)> = None;
+use serde_json::{json, Value};
+use skrifa::instance::{LocationRef, NormalizedCoord, Size};
+use skrifa::outline::pen::PathStyle;
+use skrifa::outline::{
+    AdjustedMetrics, DrawError, DrawSettings, Engine, GlyphStyles, Hinting, HintingInstance, HintingOptions, OutlineGlyph, OutlineGlyphCollection, OutlineGlyphFormat, OutlinePen,
+    SmoothMode, Target,
+};
+use skrifa::raw::{FontRef, TableProvider};
+use skrifa::{GlyphId, MetadataProvider};
+use std::collections::BTreeMap;
+use std::sync::atomic::{AtomicUsize, Ordering};
+use std::sync::{Barrier, OnceLock};
+use vf_core::{fnv64, guard, Args, Ctx, Digest, PanicInfo, PanicPolicy, Rng};
+
+pub const REPLAY: Option<fn(&mut Ctx, &Args, &serde_json::Value, Option<&[u8]>)> = Some(replay);
+
+const SIZES: [Option<f32>; 6] = [None, Some(8.0), Some(12.0), Some(16.0), Some(33.0), Some(113.0)];
+const N_TARGETS: usize = 17;
+const N_ENGINES: usize = 4;
+const THREADS: usize = 16;
+
+// ------------------------------------------------------------------ recording pen
+
+const OP_MOVE: u32 = 0xFFF0_0001;
+const OP_LINE: u32 = 0xFFF0_0002;
+const OP_QUAD: u32 = 0xFFF0_0003;
+const OP_CURVE: u32 = 0xFFF0_0004;
+const OP_CLOSE: u32 = 0xFFF0_0005;
+
+/// Commands as (opcode, argument count, f32 bit patterns ...).
+#[derive(Default, Clone, PartialEq, Eq, Debug)]
+struct Rec(Vec<u32>);
+
+impl OutlinePen for Rec {
+    fn move_to(&mut self, x: f32, y: f32) {
+        self.0.extend_from_slice(&[OP_MOVE, x.to_bits(), y.to_bits()]);
+    }
+    fn line_to(&mut self, x: f32, y: f32) {
+        self.0.extend_from_slice(&[OP_LINE, x.to_bits(), y.to_bits()]);
+    }
+    fn quad_to(&mut self, cx0: f32, cy0: f32, x: f32, y: f32) {
+        self.0.extend_from_slice(&[OP_QUAD, cx0.to_bits(), cy0.to_bits(), x.to_bits(), y.to_bits()]);
+    }
+    fn curve_to(&mut self, cx0: f32, cy0: f32, cx1: f32, cy1: f32, x: f32, y: f32) {
+        self.0.extend_from_slice(&[OP_CURVE, cx0.to_bits(), cy0.to_bits(), cx1.to_bits(), cy1.to_bits(), x.to_bits(), y.to_bits()]);
+    }
+    fn close(&mut self) {
+        self.0.push(OP_CLOSE);
+    }
+}
+
+fn op_len(op: u32) -> Option<usize> {
+    match op {
+        OP_MOVE | OP_LINE => Some(2),
+        OP_QUAD => Some(4),
+        OP_CURVE => Some(6),
+        OP_CLOSE => Some(0),
+        _ => None,
+    }
+}
+
+/// Grammar of a successful stream. Returns (error, number of contours, number of commands).
+fn grammar(cmds: &[u32], truetype: bool) -> (Option<String>, usize, usize) {
+    let mut i = 0;
+    let mut open = false;
+    let mut contours = 0;
+    let mut n = 0;
+    while i < cmds.len() {
+        let op = cmds[i];
+        let Some(len) = op_len(op) else {
+            return (Some(format!("harness: bad opcode at {}", i)), contours, n);
+        };
+        for k in 0..len {
+            let v = f32::from_bits(cmds[i + 1 + k]);
+            if !v.is_finite() {
+                return (Some(format!("non-finite-coordinate:cmd={}", n)), contours, n);
+            }
+        }
+        if truetype {
+            match op {
+                OP_MOVE => {
+                    if open {
+                        return (Some(format!("move-inside-open-contour:cmd={}", n)), contours, n);
+                    }
+                    open = true;
+                }
+                OP_CLOSE => {
+                    if !open {
+                        return (Some(format!("close-without-move:cmd={}", n)), contours, n);
+                    }
+                    open = false;
+                    contours += 1;
+                }
+                _ => {
+                    if !open {
+                        return (Some(format!("segment-outside-contour:cmd={}", n)), contours, n);
+                    }
+                }
+            }
+        }
+        i += 1 + len;
+        n += 1;
+    }
+    if truetype && open {
+        return (Some("contour-not-closed-at-end".into()), contours, n);
+    }
+    (None, contours, n)
+}
+
+/// What one draw call did.
+#[derive(Clone, PartialEq, Eq, Debug)]
+struct Obs {
+    /// Ok(metrics bits) / Err(debug text of the DrawError) / Err("panic:..")
+    res: Result<[u32; 5], String>,
+    cmds: Vec<u32>,
+}
+
+fn metrics_bits(m: &AdjustedMetrics) -> [u32; 5] {
+    [
+        m.has_overlaps as u32,
+        m.lsb.is_some() as u32,
+        m.lsb.map(|v| v.to_bits()).unwrap_or(0),
+        m.advance_width.is_some() as u32,
+        m.advance_width.map(|v| v.to_bits()).unwrap_or(0),
+    ]
+}
+
+fn describe_diff(a: &Obs, b: &Obs) -> Value {
+    let first = a.cmds.iter().zip(b.cmds.iter()).position(|(x, y)| x != y);
+    let show = |o: &Obs| match &o.res {
+        Ok(m) => json!({"ok": true, "has_overlaps": m[0], "lsb": if m[1] == 1 { json!(f32::from_bits(m[2])) } else { Value::Null }, "advance": if m[3] == 1 { json!(f32::from_bits(m[4])) } else { Value::Null }, "words": o.cmds.len()}),
+        Err(e) => json!({"ok": false, "err": e, "words": o.cmds.len()}),
+    };
+    let around = |o: &Obs, at: usize| -> Vec<String> { o.cmds.iter().skip(at.saturating_sub(2)).take(8).map(|w| if w >> 20 == 0xFFF { format!("op{}", w & 0xf) } else { format!("{}", f32::from_bits(*w)) }).collect() };
+    let at = first.unwrap_or(a.cmds.len().min(b.cmds.len()));
+    json!({"baseline": show(a), "variant": show(b), "first_differing_word": first, "baseline_at": around(a, at), "variant_at": around(b, at)})
+}
+
+// ------------------------------------------------------------------ configurations
+
+#[derive(Clone, Debug, PartialEq)]
+enum Mode {
+    Unhinted { hb: bool },
+    Hinted { engine: usize, target: usize, pedantic: bool },
+}
+
+#[derive(Clone, Debug, PartialEq)]
+struct Config {
+    size: Option<f32>,
+    coords: Vec<i16>,
+    mode: Mode,
+}
+
+impl Config {
+    fn code(&self) -> String {
+        let s = match self.size {
+            None => "unscaled".to_string(),
+            Some(v) => format!("{}", v),
+        };
+        let m = match &self.mode {
+            Mode::Unhinted { hb } => format!("unhinted{}", if *hb { "-hb" } else { "" }),
+            Mode::Hinted { engine, target, pedantic } => format!("hinted-e{}-t{}{}", engine, target, if *pedantic { "-ped" } else { "" }),
+        };
+        format!("size={};loc={:?};{}", s, self.coords, m)
+    }
+    fn size(&self) -> Size {
+        match self.size {
+            None => Size::unscaled(),
+            Some(v) => Size::new(v),
+        }
+    }
+}
+
+fn target(i: usize) -> Target {
+    if i % N_TARGETS == 0 {
+        Target::Mono
+    } else {
+        let j = i % N_TARGETS - 1;
+        Target::Smooth {
+            mode: [SmoothMode::Normal, SmoothMode::Light, SmoothMode::Lcd, SmoothMode::VerticalLcd][j % 4],
+            symmetric_rendering: (j / 4) % 2 == 0,
+            preserve_linear_metrics: (j / 8) % 2 == 1,
+        }
+    }
+}
+
+struct Fnt<'a> {
+    name: String,
+    hash: u64,
+    font: FontRef<'a>,
+    outlines: OutlineGlyphCollection<'a>,
+    axes: usize,
+    nglyphs: u32,
+    format: Option<OutlineGlyphFormat>,
+    tt_programs: bool,
+    styles: OnceLock<GlyphStyles>,
+}
+
+impl<'a> Fnt<'a> {
+    fn styles(&self) -> GlyphStyles {
+        self.styles.get_or_init(|| GlyphStyles::new(&self.outlines)).clone()
+    }
+    fn engine(&self, e: usize) -> Engine {
+        match e % N_ENGINES {
+            0 => Engine::Interpreter,
+            // computing glyph styles inside the instance is costly for big fonts
+            1 => {
+                if self.nglyphs <= 600 {
+                    Engine::Auto(None)
+                } else {
+                    Engine::Auto(Some(self.styles()))
+                }
+            }
+            2 => Engine::AutoFallback,
+            _ => Engine::Auto(Some(self.styles())),
+        }
+    }
+    fn options(&self, engine: usize, target_ix: usize) -> HintingOptions {
+        HintingOptions { engine: self.engine(engine), target: target(target_ix) }
+    }
+}
+
+fn ncoords(c: &[i16]) -> Vec<NormalizedCoord> {
+    c.iter().map(|v| NormalizedCoord::from_bits(*v)).collect()
+}
+
+fn random_coords(rng: &mut Rng, axes: usize, style: usize) -> Vec<i16> {
+    match style % 6 {
+        0 => vec![],
+        1 => (0..axes).map(|_| rng.range(-16384, 16384) as i16).collect(),
+        2 => (0..axes).map(|_| 16384).collect(),
+        3 => (0..axes).map(|_| -16384).collect(),
+        4 => (0..axes).map(|_| if rng.bool() { rng.range(-16384, 16384) as i16 } else { 0 }).collect(),
+        // shorter than the axis count
+        _ => (0..axes.saturating_sub(1).max(1)).map(|_| rng.range(-16384, 16384) as i16).collect(),
+    }
+}
+
+// ------------------------------------------------------------------ drawing under the monitors
+
+enum Sel<'i> {
+    Unhinted { size: Size, coords: &'i [NormalizedCoord], hb: bool },
+    Hinted { inst: &'i HintingInstance, pedantic: bool },
+}
+
+fn draw_obs(glyph: &OutlineGlyph, sel: &Sel, mem: Option<&mut [u8]>, panics: &mut Vec<PanicInfo>) -> Obs {
+    let mut rec = Rec::default();
+    let r = guard(|| -> Result<AdjustedMetrics, DrawError> {
+        let settings = match sel {
+            Sel::Unhinted { size, coords, hb } => {
+                let s = DrawSettings::unhinted(*size, LocationRef::new(coords));
+                if *hb {
+                    s.with_path_style(PathStyle::HarfBuzz)
+                } else {
+                    s
+                }
+            }
+            Sel::Hinted { inst, pedantic } => DrawSettings::hinted(inst, *pedantic),
+        };
+        glyph.draw(settings.with_memory(mem), &mut rec)
+    });
+    match r {
+        Ok(Ok(m)) => Obs { res: Ok(metrics_bits(&m)), cmds: rec.0 },
+        Ok(Err(e)) => Obs { res: Err(format!("{:?}", e)), cmds: rec.0 },
+        Err(p) => {
+            let s = p.signature();
+            if panics.len() < 8 {
+                panics.push(p);
+            }
+            Obs { res: Err(s), cmds: rec.0 }
+        }
+    }
+}
+
+#[derive(Default)]
+struct Report {
+    counts: BTreeMap<String, u64>,
+    labels: Vec<(String, String)>,
+    distinct: Vec<(String, u64)>,
+    violations: Vec<(String, Value)>,
+    nontrivial: Vec<u64>,
+    panics: Vec<(PanicInfo, String)>,
+    samples: Vec<(String, Value)>,
+    evals: u64,
+    max_in_flight: usize,
+}
+
+impl Report {
+    fn count(&mut self, k: &str, n: u64) {
+        *self.counts.entry(k.to_string()).or_default() += n;
+    }
+    fn label(&mut self, k: &str, v: &str) {
+        if !self.labels.iter().any(|(a, b)| a == k && b == v) {
+            self.labels.push((k.to_string(), v.to_string()));
+        }
+    }
+    fn violation(&mut self, sig: String, detail: Value) {
+        if self.violations.len() < 12 && !self.violations.iter().any(|(s, _)| *s == sig) {
+            self.violations.push((sig, detail));
+        }
+        self.count("mismatches_raw", 1);
+    }
+}
+
+struct Item<'f, 'a> {
+    fonts: &'f [Fnt<'a>],
+    fi: usize,
+    k: usize,
+    cfg: Config,
+    seed: u64,
+    glyph_cap: usize,
+    history_runs: usize,
+    thread_run: bool,
+}
+
+/// The hinting options + instance for a configuration; `None` when unhinted.
+fn new_instance(f: &Fnt, cfg: &Config, coords: &[NormalizedCoord]) -> Option<Result<HintingInstance, String>> {
+    match &cfg.mode {
+        Mode::Unhinted { .. } => None,
+        Mode::Hinted { engine, target, .. } => Some(HintingInstance::new(&f.outlines, cfg.size(), LocationRef::new(coords), f.options(*engine, *target)).map_err(|e| format!("{:?}", e))),
+    }
+}
+
+fn inst_summary(i: &HintingInstance) -> String {
+    format!("kind={} enabled={} size={:?} loc={:?} target={:?}", i.verif_kind(), i.is_enabled(), i.size().ppem().map(|v| v.to_bits()), i.location().coords(), i.target())
+}
+
+#[derive(Clone, Debug)]
+struct Step {
+    font: usize,
+    size: Option<f32>,
+    coords: Vec<i16>,
+    engine: usize,
+    target: usize,
+    draws: Vec<u32>,
+}
+
+impl Step {
+    fn code(&self, fonts: &[Fnt]) -> String {
+        format!("{}:s{:?}:l{:?}:e{}:t{}:d{}", fonts[self.font].name, self.size, self.coords, self.engine, self.target, self.draws.len())
+    }
+}
+
+fn gen_history(rng: &mut Rng, fonts: &[Fnt], own: usize) -> Vec<Step> {
+    let n = 1 + rng.usize(6);
+    let tt: Vec<usize> = fonts.iter().enumerate().filter(|(_, f)| f.tt_programs).map(|(i, _)| i).collect();
+    let small: Vec<usize> = fonts.iter().enumerate().filter(|(_, f)| f.nglyphs <= 3000 && f.format.is_some()).map(|(i, _)| i).collect();
+    (0..n)
+        .map(|_| {
+            let font = match rng.usize(10) {
+                0..=2 => own,
+                3..=6 if !tt.is_empty() => *rng.pick(&tt),
+                _ if !small.is_empty() => *rng.pick(&small),
+                _ => own,
+            };
+            let f = &fonts[font];
+            let size = match rng.usize(5) {
+                0 => None,
+                1 => Some(rng.range(6, 200) as f32),
+                2 => Some(rng.range(6 * 64, 60 * 64) as f32 / 64.0),
+                _ => *rng.pick(&SIZES),
+            };
+            let coords = random_coords(rng, f.axes, if f.axes == 0 { 0 } else { rng.usize(6) });
+            // mostly the interpreter: that is the instance kind with retained state
+            let engine = if rng.chance(3, 5) { 0 } else { rng.usize(N_ENGINES) };
+            let engine = if engine % N_ENGINES == 1 && f.nglyphs > 600 { 3 } else { engine };
+            let nd = rng.usize(4);
+            let draws = (0..nd).map(|_| rng.u32() % f.nglyphs.max(1)).collect();
+            Step { font, size, coords, engine, target: rng.usize(N_TARGETS), draws }
+        })
+        .collect()
+}
+
+/// Build an instance through a history, then reconfigure it for `cfg`.
+fn reused_instance(fonts: &[Fnt], hist: &[Step], f: &Fnt, cfg: &Config, coords: &[NormalizedCoord], rep: &mut Report) -> Option<Result<HintingInstance, String>> {
+    let Mode::Hinted { engine, target, .. } = &cfg.mode else { return None };
+    let mut inst: Option<HintingInstance> = None;
+    for st in hist {
+        let hf = &fonts[st.font];
+        let c = ncoords(&st.coords);
+        let size = st.size.map(Size::new).unwrap_or(Size::unscaled());
+        let opts = hf.options(st.engine, st.target);
+        match inst.as_mut() {
+            None => match HintingInstance::new(&hf.outlines, size, LocationRef::new(&c), opts) {
+                Ok(i) => inst = Some(i),
+                Err(_) => rep.count("history_step_failed", 1),
+            },
+            Some(i) => {
+                if i.reconfigure(&hf.outlines, size, LocationRef::new(&c), opts).is_err() {
+                    rep.count("history_step_failed", 1);
+                }
+            }
+        }
+        rep.count("history_steps", 1);
+        if let Some(i) = inst.as_ref() {
+            rep.label("history_kinds", &format!("{}:{:?}", i.verif_kind(), hf.format));
+            for g in &st.draws {
+                if let Some(glyph) = hf.outlines.get(GlyphId::new(*g)) {
+                    let mut rec = Rec::default();
+                    let _ = glyph.draw(DrawSettings::hinted(i, false), &mut rec);
+                    rep.count("history_draws", 1);
+                }
+            }
+        }
+    }
+    let opts = f.options(*engine, *target);
+    Some(match inst {
+        None => HintingInstance::new(&f.outlines, cfg.size(), LocationRef::new(coords), opts).map_err(|e| format!("{:?}", e)),
+        Some(mut i) => i.reconfigure(&f.outlines, cfg.size(), LocationRef::new(coords), opts).map(|_| i).map_err(|e| format!("{:?}", e)),
+    })
+}
+
+fn eval_item(it: &Item) -> Report {
+    let mut rep = Report::default();
+    let f = &it.fonts[it.fi];
+    let cfg = &it.cfg;
+    let mut rng = Rng::derive(it.seed, "c12-item", (it.fi * 100_003 + it.k) as u64);
+    let coords = ncoords(&cfg.coords);
+    let code = cfg.code();
+    let ident = |gid: u32| format!("{}:gid={}:{}", f.name, gid, code);
+    let mut panics: Vec<PanicInfo> = vec![];
+
+    // ---- glyph sample
+    let mut gids: Vec<u32> = if (f.nglyphs as usize) <= it.glyph_cap {
+        (0..f.nglyphs).collect()
+    } else {
+        let mut v: Vec<u32> = (0..4.min(f.nglyphs)).collect();
+        while v.len() < it.glyph_cap {
+            let g = rng.u32() % f.nglyphs;
+            if !v.contains(&g) {
+                v.push(g);
+            }
+        }
+        v.sort_unstable();
+        v
+    };
+    gids.retain(|g| f.outlines.get(GlyphId::new(*g)).is_some());
+    let glyphs: Vec<(u32, OutlineGlyph)> = gids.iter().map(|g| (*g, f.outlines.get(GlyphId::new(*g)).unwrap())).collect();
+    if glyphs.is_empty() {
+        rep.count("items_without_glyphs", 1);
+        return rep;
+    }
+    let hinted = matches!(cfg.mode, Mode::Hinted { .. });
+    let pedantic = matches!(cfg.mode, Mode::Hinted { pedantic: true, .. });
+    let hb = matches!(cfg.mode, Mode::Unhinted { hb: true });
+    let hinting = if hinted { Hinting::Embedded } else { Hinting::None };
+    let truetype = f.format == Some(OutlineGlyphFormat::Glyf);
+
+    // ---- baseline: fresh instance, serial, library memory, ascending order
+    let i0 = match new_instance(f, cfg, &coords) {
+        None => None,
+        Some(Ok(i)) => Some(i),
+        Some(Err(e)) => {
+            // the configuration cannot be instantiated: every other way to get there must fail alike
+            rep.count("instance_new_failed", 1);
+            rep.label("instance_errors", &e.chars().take(60).collect::<String>());
+            let hist = gen_history(&mut rng, it.fonts, it.fi);
+            if let Some(r) = reused_instance(it.fonts, &hist, f, cfg, &coords, &mut rep) {
+                rep.evals += 1;
+                rep.count("cmp:d-reconfigure-result", 1);
+                match r {
+                    Err(e2) if e2 == e => {}
+                    other => rep.violation(
+                        format!("diff:d-reconfigure-result:{}:{}", f.name, code),
+                        json!({"fresh": e, "reused": other.as_ref().map(|i| inst_summary(i)).map_err(|e| e.clone()), "history": hist.iter().map(|s| s.code(it.fonts)).collect::<Vec<_>>()}),
+                    ),
+                }
+            }
+            return rep;
+        }
+    };
+    let sel0 = match &i0 {
+        Some(i) => Sel::Hinted { inst: i, pedantic },
+        None => Sel::Unhinted { size: cfg.size(), coords: &coords, hb },
+    };
+    let state0 = i0.as_ref().map(|i| (i.verif_state(), inst_summary(i)));
+    if let Some(i) = &i0 {
+        rep.label("hinting_kinds_reached", &format!("{}:{}:{:?}", i.verif_kind(), if i.is_enabled() { "enabled" } else { "disabled" }, f.format));
+        if let Mode::Hinted { engine, target, .. } = &cfg.mode {
+            rep.label("engines_targets", &format!("e{}:t{}", engine, target));
+        }
+    } else {
+        rep.label("hinting_kinds_reached", &format!("unhinted{}:{:?}", if hb { "-harfbuzz" } else { "" }, f.format));
+    }
+    let base: Vec<Obs> = glyphs.iter().map(|(_, g)| draw_obs(g, &sel0, None, &mut panics)).collect();
+    let mut any_ok_nonempty = false;
+    for ((gid, _), b) in glyphs.iter().zip(&base) {
+        rep.evals += 1;
+        match &b.res {
+            Ok(_) => {
+                rep.count("baseline_ok", 1);
+                let (err, contours, ncmd) = grammar(&b.cmds, truetype);
+                rep.count("contours_checked", contours as u64);
+                rep.count("commands_checked", ncmd as u64);
+                if let Some(e) = err {
+                    if e.starts_with("harness") {
+                        rep.count("harness_grammar_problem", 1);
+                    } else {
+                        rep.violation(format!("malformed-stream:{}:{}", e.split(':').next().unwrap_or(""), ident(*gid)), json!({"problem": e, "words": b.cmds.len()}));
+                    }
+                }
+                if !b.cmds.is_empty() {
+                    any_ok_nonempty = true;
+                }
+            }
+            Err(e) => {
+                rep.count("baseline_err", 1);
+                rep.label("draw_errors", &e.chars().take(48).collect::<String>());
+            }
+        }
+    }
+    let mut compare = |rep: &mut Report, kind: &str, gi: usize, got: &Obs, extra: Value| {
+        rep.evals += 1;
+        rep.count(&format!("cmp:{}", kind), 1);
+        if *got != base[gi] {
+            let mut d = describe_diff(&base[gi], got);
+            d["variant_info"] = extra;
+            d["item"] = json!({"font": f.name, "k": it.k, "config": code});
+            rep.violation(format!("diff:{}:{}", kind, ident(glyphs[gi].0)), d);
+        }
+    };
+
+    // ---- (a) repeat through the same instance
+    for (gi, (_, g)) in glyphs.iter().enumerate() {
+        let o = draw_obs(g, &sel0, None, &mut panics);
+        compare(&mut rep, "a-repeat", gi, &o, Value::Null);
+    }
+
+    // ---- (e) other preceding draws: second fresh instance, shuffled order; per-glyph fresh instance
+    {
+        let i1 = new_instance(f, cfg, &coords).and_then(|r| r.ok());
+        let sel1 = match &i1 {
+            Some(i) => Sel::Hinted { inst: i, pedantic },
+            None => Sel::Unhinted { size: cfg.size(), coords: &coords, hb },
+        };
+        if let (Some(i), Some((s0, sum0))) = (&i1, &state0) {
+            rep.evals += 1;
+            rep.count("cmp:a-second-fresh-instance-state", 1);
+            if i.verif_state() != *s0 || inst_summary(i) != *sum0 {
+                rep.violation(format!("diff:a-second-fresh-instance-state:{}:{}", f.name, code), json!({"first": sum0, "second": inst_summary(i)}));
+            }
+        }
+        let mut order: Vec<usize> = (0..glyphs.len()).collect();
+        rng.shuffle(&mut order);
+        for gi in order {
+            let o = draw_obs(&glyphs[gi].1, &sel1, None, &mut panics);
+            compare(&mut rep, "e-shuffled-order", gi, &o, Value::Null);
+        }
+        if hinted {
+            for _ in 0..3.min(glyphs.len()) {
+                let gi = rng.usize(glyphs.len());
+                if let Some(Ok(i)) = new_instance(f, cfg, &coords) {
+                    let o = draw_obs(&glyphs[gi].1, &Sel::Hinted { inst: &i, pedantic }, None, &mut panics);
+                    compare(&mut rep, "e-no-preceding-draw", gi, &o, Value::Null);
+                }
+            }
+        }
+    }
+
+    // ---- (b) caller memory
+    {
+        let max_need = glyphs.iter().map(|(_, g)| g.draw_memory_size(hinting)).max().unwrap_or(0);
+        let mut big = vec![0x5Au8; max_need + 64 + 16];
+        for (gi, (gid, g)) in glyphs.iter().enumerate() {
+            let need = g.draw_memory_size(hinting);
+            if need > 0 {
+                rep.count("glyphs_needing_memory", 1);
+            }
+            for v in 0..4usize {
+                let align = (gi + v * 3 + it.k) % 8;
+                let extra = match v {
+                    0 => 0,
+                    1 => 1 + rng.usize(64),
+                    2 => 0,
+                    _ => [1usize, 2, 3, 4, 7, 8, 63, 64][(gi + it.k) % 8],
+                };
+                let fill = (gi + v + it.k) % 4;
+                let basep = big.as_ptr() as usize;
+                let off = (align + 8 - basep % 8) % 8;
+                let slice = &mut big[off..off + need + extra];
+                match fill {
+                    0 => slice.fill(0),
+                    1 => slice.fill(0xAA),
+                    2 => {
+                        let r = rng.bytes(slice.len());
+                        slice.copy_from_slice(&r);
+                    }
+                    _ => {} // dirty from the previous glyph
+                }
+                let o = draw_obs(g, &sel0, Some(slice), &mut panics);
+                rep.count(&format!("mem:align{}", align), 1);
+                rep.count(["mem:fill-zero", "mem:fill-aa", "mem:fill-random", "mem:dirty-reuse"][fill], 1);
+                rep.count(if extra == 0 { "mem:exact-size" } else { "mem:oversize" }, 1);
+                let _ = gid;
+                compare(&mut rep, "b-caller-memory", gi, &o, json!({"advertised": need, "extra": extra, "start_alignment_mod8": align, "prefill": ["zero", "0xAA", "random", "dirty"][fill]}));
+            }
+        }
+    }
+
+    // ---- (c) no location vs explicit all-zero location
+    if cfg.coords.iter().all(|c| *c == 0) {
+        let zlen = if f.axes == 0 { 1 + it.k % 2 } else { f.axes + (it.k % 3 == 2) as usize };
+        let zeros = vec![NormalizedCoord::ZERO; zlen];
+        let none: [NormalizedCoord; 0] = [];
+        for (which, cs) in [("explicit-zeros", &zeros[..]), ("empty", &none[..])] {
+            let iz = match &cfg.mode {
+                Mode::Unhinted { .. } => None,
+                Mode::Hinted { engine, target, .. } => match HintingInstance::new(&f.outlines, cfg.size(), LocationRef::new(cs), f.options(*engine, *target)) {
+                    Ok(i) => Some(i),
+                    Err(e) => {
+                        rep.violation(format!("diff:c-zero-location-instance:{}:{}", f.name, code), json!({"location": which, "error": format!("{:?}", e)}));
+                        continue;
+                    }
+                },
+            };
+            if let (Some(i), Some((s0, sum0))) = (&iz, &state0) {
+                rep.evals += 1;
+                rep.count("cmp:c-zero-location-state", 1);
+                if i.verif_state() != *s0 || inst_summary(i) != *sum0 {
+                    rep.violation(format!("diff:c-zero-location-state:{}:{}", f.name, code), json!({"location": which, "default": sum0, "zeros": inst_summary(i)}));
+                }
+            }
+            let selz = match &iz {
+                Some(i) => Sel::Hinted { inst: i, pedantic },
+                None => Sel::Unhinted { size: cfg.size(), coords: cs, hb },
+            };
+            for (gi, (_, g)) in glyphs.iter().enumerate() {
+                let o = draw_obs(g, &selz, None, &mut panics);
+                compare(&mut rep, "c-zero-location", gi, &o, json!({"location": which, "len": cs.len()}));
+            }
+        }
+    }
+
+    // ---- (d) reused instance after a history
+    let mut reused_for_threads: Option<HintingInstance> = None;
+    if hinted {
+        for h in 0..it.history_runs {
+            let hist = gen_history(&mut rng, it.fonts, it.fi);
+            let hist_codes: Vec<String> = hist.iter().map(|s| s.code(it.fonts)).collect();
+            let mut hd = Digest::new();
+            for c in &hist_codes {
+                hd.str(c);
+            }
+            rep.distinct.push(("reconfigure_histories".into(), hd.finish()));
+            rep.count(&format!("history_len:{}", hist.len()), 1);
+            let Some(r) = reused_instance(it.fonts, &hist, f, cfg, &coords, &mut rep) else { continue };
+            let last = hist_codes.last().cloned().unwrap_or_default();
+            match r {
+                Err(e) => {
+                    rep.violation(format!("diff:d-reconfigure-result:{}:{}", f.name, code), json!({"fresh": "Ok", "reused": e, "history": hist_codes}));
+                }
+                Ok(ri) => {
+                    if let Some((s0, sum0)) = &state0 {
+                        rep.evals += 1;
+                        rep.count("cmp:d-reused-state", 1);
+                        let s = ri.verif_state();
+                        if s != *s0 || inst_summary(&ri) != *sum0 {
+                            let which = match (&s, s0) {
+                                (Some(a), Some(b)) => a.lines().zip(b.lines()).filter(|(x, y)| x != y).map(|(x, _)| x.split('=').next().unwrap_or("").to_string()).collect::<Vec<_>>(),
+                                _ => vec!["kind".to_string()],
+                            };
+                            rep.violation(
+                                format!("diff:d-reused-state:{}:{}:after={}", f.name, code, last),
+                                json!({"fresh": sum0, "reused": inst_summary(&ri), "differing_components": which, "history": hist_codes, "item": {"font": f.name, "k": it.k}}),
+                            );
+                        }
+                    }
+                    let mut order: Vec<usize> = (0..glyphs.len()).collect();
+                    rng.shuffle(&mut order);
+                    for gi in order {
+                        let o = draw_obs(&glyphs[gi].1, &Sel::Hinted { inst: &ri, pedantic }, None, &mut panics);
+                        compare(&mut rep, "d-reused-instance", gi, &o, json!({"history": hist_codes}));
+                    }
+                    if h == 0 {
+                        reused_for_threads = Some(ri);
+                    }
+                }
+            }
+        }
+    }
+
+    // ---- (f) threads through one shared instance
+    if it.thread_run {
+        // a never-drawn-with fresh instance (lazy initialisation races) or the reused one
+        let fresh_t = if it.k % 2 == 0 { new_instance(f, cfg, &coords).and_then(|r| r.ok()) } else { None };
+        let shared: Option<&HintingInstance> = if hinted { fresh_t.as_ref().or(reused_for_threads.as_ref()).or(i0.as_ref()) } else { None };
+        let in_flight = AtomicUsize::new(0);
+        let max_seen = AtomicUsize::new(0);
+        let barrier = Barrier::new(THREADS);
+        let seed = rng.u64();
+        let results: Vec<(Vec<(usize, Obs, usize)>, Vec<PanicInfo>)> = std::thread::scope(|s| {
+            let handles: Vec<_> = (0..THREADS)
+                .map(|t| {
+                    let glyphs = &glyphs;
+                    let coords = &coords;
+                    let (in_flight, max_seen, barrier) = (&in_flight, &max_seen, &barrier);
+                    let size = cfg.size();
+                    s.spawn(move || {
+                        let mut rng = Rng::derive(seed, "c12-thread", t as u64);
+                        let mut order: Vec<usize> = (0..glyphs.len()).collect();
+                        rng.shuffle(&mut order);
+                        let mut out = Vec::with_capacity(order.len());
+                        let mut panics = vec![];
+                        let sel = match shared {
+                            Some(i) => Sel::Hinted { inst: i, pedantic },
+                            None => Sel::Unhinted { size, coords, hb },
+                        };
+                        let mut mem = vec![0u8; 0];
+                        barrier.wait();
+                        for gi in order {
+                            for _ in 0..rng.usize(3) {
+                                std::thread::yield_now();
+                            }
+                            let g = &glyphs[gi].1;
+                            let own_mem = t % 4 == 3;
+                            let n = in_flight.fetch_add(1, Ordering::SeqCst) + 1;
+                            max_seen.fetch_max(n, Ordering::SeqCst);
+                            let o = if own_mem {
+                                let need = g.draw_memory_size(hinting);
+                                if mem.len() < need + 8 {
+                                    mem.resize(need + 8, 0xCC);
+                                }
+                                let off = t % 8;
+                                draw_obs(g, &sel, Some(&mut mem[off..off + need]), &mut panics)
+                            } else {
+                                draw_obs(g, &sel, None, &mut panics)
+                            };
+                            in_flight.fetch_sub(1, Ordering::SeqCst);
+                            out.push((gi, o, t));
+                        }
+                        (out, panics)
+                    })
+                })
+                .collect();
+            handles.into_iter().filter_map(|h| h.join().ok()).collect()
+        });
+        rep.count("thread_runs", 1);
+        if results.len() != THREADS {
+            rep.count("harness_thread_join_failed", 1);
+        }
+        rep.max_in_flight = max_seen.load(Ordering::SeqCst);
+        for (outs, ps) in results {
+            for p in ps {
+                if panics.len() < 8 {
+                    panics.push(p);
+                }
+            }
+            for (gi, o, t) in outs {
+                rep.count("thread_draws", 1);
+                compare(&mut rep, "f-concurrent", gi, &o, json!({"thread": t, "threads": THREADS}));
+            }
+        }
+    }
+
+    // ---- the shared instance must be logically unchanged by everything drawn through it
+    if let (Some(i), Some((s0, sum0))) = (&i0, &state0) {
+        rep.evals += 1;
+        rep.count("cmp:instance-state-after-draws", 1);
+        if i.verif_state() != *s0 || inst_summary(i) != *sum0 {
+            rep.violation(format!("diff:instance-state-changed-by-draws:{}:{}", f.name, code), json!({"before": sum0, "after": inst_summary(i)}));
+        }
+    }
+
+    // ---- evidence
+    if any_ok_nonempty {
+        for ((gid, _), b) in glyphs.iter().zip(&base) {
+            if b.res.is_ok() && !b.cmds.is_empty() {
+                let mut d = Digest::new();
+                d.u64(f.hash);
+                d.u32(*gid);
+                d.str(&code);
+                rep.nontrivial.push(d.finish());
+            }
+        }
+    }
+    rep.label("fonts", &f.name);
+    rep.distinct.push(("fonts_x_glyphs".into(), {
+        let mut d = Digest::new();
+        d.u64(f.hash);
+        d.u64(glyphs.len() as u64);
+        d.u64(it.k as u64);
+        d.finish()
+    }));
+    rep.count("glyphs_baselined", glyphs.len() as u64);
+    if rep.samples.is_empty() {
+        if let Some(((gid, _), b)) = glyphs.iter().zip(&base).find(|(_, b)| b.res.is_ok() && b.cmds.len() > 8) {
+            rep.samples.push((
+                format!("{:?}:{}", f.format, if hinted { "hinted" } else { "unhinted" }),
+                json!({"font": f.name, "gid": gid, "config": code, "stream_words": b.cmds.len(), "metrics_bits": b.res.as_ref().ok(), "variants_compared": rep.evals}),
+            ));
+        }
+    }
+    for p in panics {
+        rep.panics.push((p, ident(0)));
+    }
+    rep
+}
+
+fn apply(ctx: &mut Ctx, rep: Report) {
+    ctx.evals(rep.evals);
+    for (k, n) in &rep.counts {
+        ctx.count(k, *n);
+    }
+    for (k, v) in &rep.labels {
+        ctx.label(k, v);
+    }
+    for (k, d) in &rep.distinct {
+        ctx.distinct(k, *d);
+    }
+    for d in &rep.nontrivial {
+        ctx.nontrivial(*d);
+    }
+    for (k, v) in rep.samples {
+        ctx.sample_by_kind(&k, v);
+    }
+    for (sig, detail) in rep.violations {
+        ctx.violation(&sig, detail, None);
+    }
+    for (p, what) in rep.panics {
+        ctx.judge_panic(&p, "OutlineGlyph::draw", json!({"case": what}), None);
+    }
+    if rep.max_in_flight > 0 {
+        ctx.count(&format!("threads:max_draws_in_flight>={}", if rep.max_in_flight >= 8 { 8 } else if rep.max_in_flight >= 2 { 2 } else { 1 }), 1);
+    }
+}
+
+/// The k-th configuration of a font (deterministic; covers sizes, locations, modes cyclically).
+fn config_for(f: &Fnt, k: usize, seed: u64) -> Config {
+    let mut rng = Rng::derive(seed, "c12-config", f.hash ^ k as u64);
+    let size = SIZES[k % SIZES.len()];
+    let loc_style = if f.axes == 0 { 0 } else { (k / SIZES.len() + k / 2) % 6 };
+    let coords = random_coords(&mut rng, f.axes, loc_style);
+    // 1/6 unhinted FreeType, 1/12 unhinted HarfBuzz, rest hinted
+    let mode = match k % 12 {
+        1 | 7 => Mode::Unhinted { hb: false },
+        4 => Mode::Unhinted { hb: true },
+        _ => {
+            let j = k / 2 + k / 12;
+            Mode::Hinted { engine: [0, 0, 1, 0, 2, 3][j % 6], target: (k * 5 + k / 17) % N_TARGETS, pedantic: k % 5 == 3 }
+        }
+    };
+    Config { size, coords, mode }
+}
+
+fn load_fonts<'a>(corpus: &'a [vf_core::CorpusFont], synth: &'a [(String, Vec<u8>)]) -> Vec<Fnt<'a>> {
+    let mut v = vec![];
+    let mut push = |name: String, data: &'a [u8]| {
+        for index in 0..4u32 {
+            let Ok(font) = FontRef::from_index(data, index) else { break };
+            let outlines = font.outline_glyphs();
+            let Some(format) = outlines.format() else { break };
+            let nglyphs = font.maxp().map(|m| m.num_glyphs() as u32).unwrap_or(0);
+            if nglyphs == 0 {
+                break;
+            }
+            let axes = font.axes().len();
+            let tt_programs = format == OutlineGlyphFormat::Glyf && (font.data_for_tag(skrifa::raw::types::Tag::new(b"fpgm")).is_some() || font.data_for_tag(skrifa::raw::types::Tag::new(b"prep")).is_some());
+            v.push(Fnt {
+                name: if index == 0 { name.clone() } else { format!("{}#{}", name, index) },
+                hash: fnv64(data) ^ index as u64,
+                font,
+                outlines,
+                axes,
+                nglyphs,
+                format: Some(format),
+                tt_programs,
+                styles: OnceLock::new(),
+            });
+            if !name.ends_with(".ttc") {
+                break;
+            }
+        }
+    };
+    for c in corpus {
+        push(c.name.clone(), &c.data[..]);
+    }
+    for (n, d) in synth {
+        push(n.clone(), &d[..]);
+    }
+    v
+}
+
+fn item_params(ctx: &Ctx, k: usize) -> (usize, usize, bool) {
+    let glyph_cap = ctx.tier.pick(40, 96);
+    let history_runs = ctx.tier.pick(2, 4);
+    let thread_run = ctx.tier.pick(k % 3 == 0, k % 2 == 0);
+    (glyph_cap, history_runs, thread_run)
+}
+
+fn run_item(ctx: &mut Ctx, fonts: &[Fnt], fi: usize, k: usize) {
+    let cfg = config_for(&fonts[fi], k, ctx.seed);
+    let (glyph_cap, history_runs, thread_run) = item_params(ctx, k);
+    let it = Item { fonts, fi, k, cfg, seed: ctx.seed, glyph_cap, history_runs, thread_run };
+    let label = || format!("{} k={} {}", fonts[fi].name, k, it.cfg.code());
+    match ctx.run_case(&label, Some(fonts[fi].font.table_directory.offset_data().as_bytes()), &|| eval_item(&it)) {
+        Ok(rep) => apply(ctx, rep),
+        Err(p) => {
+            // a panic outside the per-draw guards: instance construction, reconfigure, memory sizing
+            let detail = json!({"font": fonts[fi].name, "k": k, "config": it.cfg.code()});
+            ctx.judge_panic(&p, "HintingInstance::new / reconfigure / draw_memory_size", detail, None);
+        }
+    }
+}
 
 pub fn run(ctx: &mut Ctx, _args: &Args) {
-    ctx.rule = "stub".into();
+    ctx.policy = PanicPolicy::Totality;
+    ctx.rule = "a (font, glyph, size, location, hinting options) whose baseline draw (fresh instance, serial, library memory) succeeded with a non-empty \
+                command stream and was compared against the variants a..f of its work item; digest = (font hash, glyph id, configuration)"
+        .into();
+    ctx.assumptions = vec![
+        "a hinting instance is only used with glyphs of the font it is currently configured for".into(),
+        "caller memory is at least OutlineGlyph::draw_memory_size(Hinting::Embedded for hinted draws, Hinting::None otherwise) bytes".into(),
+        "thread interleavings are sampled (16 threads, barrier start, seeded yields); data races are excluded by the type system (draw takes &HintingInstance, no unsafe)".into(),
+        "normalized coordinates are passed directly (F2Dot14 in [-1,1]); avar is not involved".into(),
+        "stream grammar is only demanded of TrueType (glyf) outlines; finiteness of all formats".into(),
+    ];
+    let corpus = vf_core::corpus_fonts();
+    let synth = synth::fonts();
+    let fonts = load_fonts(&corpus, &synth);
+    ctx.extra.insert("fonts_with_outlines".into(), json!(fonts.len()));
+    ctx.extra.insert("fonts_with_truetype_programs".into(), json!(fonts.iter().filter(|f| f.tt_programs).map(|f| f.name.clone()).collect::<Vec<_>>()));
+    let per_font = ctx.tier.pick(36usize, 288);
+    let mut item = 0usize;
+    for k in 0..per_font {
+        for fi in 0..fonts.len() {
+            let mine = ctx.mine(item);
+            item += 1;
+            if !mine {
+                continue;
+            }
+            run_item(ctx, &fonts, fi, k);
+        }
+    }
+    // directed: the IDEF-retention question (instance.rs setup() resizes `instructions` without clear)
+    if ctx.shard.0 == 0 {
+        synth::idef_probe(ctx, &fonts);
+    }
+}
+
+fn replay(ctx: &mut Ctx, _args: &Args, rec: &Value, _input: Option<&[u8]>) {
+    ctx.policy = PanicPolicy::Totality;
+    let d = &rec["detail"];
+    let (Some(name), Some(k)) = (d["item"]["font"].as_str(), d["item"]["k"].as_u64()) else {
+        ctx.inconclusive("replay record has no item identity");
+        return;
+    };
+    let corpus = vf_core::corpus_fonts();
+    let synth = synth::fonts();
+    let fonts = load_fonts(&corpus, &synth);
+    if let Some(fi) = fonts.iter().position(|f| f.name == name) {
+        run_item(ctx, &fonts, fi, k as usize);
+    } else {
+        ctx.inconclusive(format!("font {} not in corpus", name));
+    }
 }
